@@ -101,6 +101,15 @@ func inlineNewHelpers(p *Prog) ([]string, error) {
 		}
 	}
 	var notes []string
+	// direct clause writers: a new helper W(buf, a...) that writes into a *strings.Builder exactly the
+	// text a known string constructor K(a...) returns — K's own body having become
+	// {b := newStrBuf(); W(b, K's parameters...); return b.String()} — is rewritten at every other call
+	// site into buf.WriteString(K(a...)), the form the rules know (W is then inlined into K only)
+	if wn, err := rewriteDirectWriters(p, isNew); err != nil {
+		return nil, err
+	} else {
+		notes = append(notes, wn...)
+	}
 	done := map[*ssa.Function]bool{}
 	visiting := map[*ssa.Function]bool{}
 	var process func(f *ssa.Function) error
@@ -188,4 +197,154 @@ func inlineNewHelpers(p *Prog) ([]string, error) {
 	p.Funcs = kept
 	sort.Strings(notes)
 	return notes, nil
+}
+
+func rewriteDirectWriters(p *Prog, isNew func(*ssa.Function) bool) ([]string, error) {
+	var ws *ssa.Function
+	for _, f := range p.Funcs {
+		for _, b := range f.Blocks {
+			for _, in := range b.Instrs {
+				if c, ok := in.(*ssa.Call); ok && calleeName(&c.Call) == "(*strings.Builder).WriteString" {
+					ws = c.Call.StaticCallee()
+				}
+			}
+		}
+	}
+	if ws == nil {
+		return nil, nil
+	}
+	pairs := map[*ssa.Function]*ssa.Function{} // writer -> constructor
+	for _, k := range p.Funcs {
+		if k.Blocks == nil || isNew(k) || k.Signature.Results().Len() != 1 || k.Signature.Recv() != nil {
+			continue
+		}
+		if bt, ok := k.Signature.Results().At(0).Type().Underlying().(*types.Basic); !ok || bt.Kind() != types.String {
+			continue
+		}
+		var w *ssa.Function
+		nW, okShape := 0, true
+		var builder ssa.Value
+		for _, b := range k.Blocks {
+			for _, in := range b.Instrs {
+				c, ok := in.(*ssa.Call)
+				if !ok {
+					continue
+				}
+				g := c.Call.StaticCallee()
+				if g == nil || !isNew(g) {
+					continue
+				}
+				nW++
+				w = g
+				if len(c.Call.Args) != len(k.Params)+1 {
+					okShape = false
+					continue
+				}
+				builder = c.Call.Args[0]
+				for i, prm := range k.Params {
+					if c.Call.Args[i+1] != ssa.Value(prm) {
+						okShape = false
+					}
+				}
+			}
+		}
+		if nW != 1 || !okShape || w == nil || builder == nil {
+			continue
+		}
+		if bc, ok := builder.(*ssa.Call); !ok || !strings.HasSuffix(calleeName(&bc.Call), "newStrBuf") {
+			continue
+		}
+		// every return hands back builder.String()
+		retOK := true
+		for _, b := range k.Blocks {
+			if ret, ok := b.Instrs[len(b.Instrs)-1].(*ssa.Return); ok {
+				v := ret.Results[0]
+				if ld, ok := v.(*ssa.UnOp); ok { // spilled result cell (the function defers)
+					if cell, ok := ld.X.(*ssa.Alloc); ok {
+						for _, r := range *cell.Referrers() {
+							if st, ok := r.(*ssa.Store); ok && st.Addr == ssa.Value(cell) {
+								v = st.Val
+							}
+						}
+					}
+				}
+				sc, ok := v.(*ssa.Call)
+				if !ok || calleeName(&sc.Call) != "(*strings.Builder).String" || sc.Call.Args[0] != builder {
+					retOK = false
+				}
+			}
+		}
+		if retOK && w.Signature.Results().Len() == 0 && onlyAppends(w, 0, 0) {
+			pairs[w] = k
+		}
+	}
+	if len(pairs) == 0 {
+		return nil, nil
+	}
+	var notes []string
+	for _, f := range p.Funcs {
+		for round := 0; round < 200; round++ {
+			var target *ssa.Call
+			for _, b := range f.Blocks {
+				for _, in := range b.Instrs {
+					if c, ok := in.(*ssa.Call); ok {
+						if g := c.Call.StaticCallee(); g != nil && pairs[g] != nil && pairs[g] != f && !(isNew(f) && pairs[f] != nil) {
+							target = c
+						}
+					}
+				}
+			}
+			if target == nil {
+				break
+			}
+			w := target.Call.StaticCallee()
+			if err := ssa.PGVWriterToConstructor(target, pairs[w], ws); err != nil {
+				return notes, err
+			}
+			notes = append(notes, fmt.Sprintf("%s(buf, …) in %s read as buf.WriteString(%s(…))", p.FuncName(w), p.FuncName(f), p.FuncName(pairs[w])))
+		}
+	}
+	return notes, nil
+}
+
+// onlyAppends: the function uses its builder parameter (index pi) only to append to it (directly or
+// through repository helpers that do the same): then writing into a non-empty builder appends exactly
+// the text it would have written into an empty one.
+func onlyAppends(f *ssa.Function, pi, depth int) bool {
+	if f == nil || f.Blocks == nil || pi >= len(f.Params) || depth > 4 {
+		return false
+	}
+	prm := ssa.Value(f.Params[pi])
+	appendOnly := map[string]bool{"WriteString": true, "WriteByte": true, "WriteRune": true, "Write": true, "Grow": true}
+	for _, r := range *f.Params[pi].Referrers() {
+		ci, ok := r.(ssa.CallInstruction)
+		if !ok {
+			return false
+		}
+		cc := ci.Common()
+		g := cc.StaticCallee()
+		if g == nil {
+			return false
+		}
+		nm := calleeName(cc)
+		if strings.HasPrefix(nm, "(*strings.Builder).") {
+			if !appendOnly[strings.TrimPrefix(nm, "(*strings.Builder).")] || len(cc.Args) == 0 || cc.Args[0] != prm {
+				return false
+			}
+			continue
+		}
+		idx := -1
+		for i, a := range cc.Args {
+			if a == prm {
+				if idx >= 0 {
+					return false
+				}
+				idx = i
+			}
+		}
+		if idx < 0 || g.Blocks == nil || !onlyAppends(g, idx, depth+1) {
+			return false
+		}
+	}
+	return true
 }
